@@ -226,7 +226,7 @@ PUNCT = [",", ",,", "#", "$", "%", "'", "\"", "[", "]", "[]", "<", ">", "+", "-"
 MUTATIONS = ["del_label", "del_mn", "del_op", "dup_op", "swap", "empty_op_keep_space", "unterminated", "stray",
              "stray_front", "reg_replace", "out_of_range", "dup_label", "undef_label", "bad_mnemonic", "trailing_comma",
              "leading_comma", "double_op", "no_newline", "case", "div_zero", "filename_operand", "brackets", "only_label",
-             "sym_in_list", "long_symbol"]
+             "sym_in_list", "long_symbol", "long_literal", "non_ascii"]
 
 
 def mutate(stmts, rng):
@@ -295,6 +295,23 @@ def mutate(stmts, rng):
         s["op"] = rng.choice(["", "#", "<", "[", ""]) + sym + rng.choice(["", "!", ".", "?", "+", "_X", ",PCR", "+1", "]"])
         if rng.chance(0.3):
             s["label"] = sym[:rng.choice([8, 24, 40])]
+    elif m == "long_literal":
+        # over-long numeric literals in every radix, some with a stray character at the end
+        n = rng.choice([17, 28, 40, 64, 300, 5000])
+        lit = rng.choice(["%" + "".join(rng.choice("01") for _ in range(n)), "$" + "".join(rng.choice("0123456789ABCDEF") for _ in range(n)),
+                          "".join(rng.choice("0123456789") for _ in range(n)), "-" + "".join(rng.choice("0123456789") for _ in range(n))])
+        s["op"] = rng.choice(["", "#", "<", ">"]) + lit + rng.choice(["", "", "2", "G", "_", ",X", "+1"])
+    elif m == "non_ascii":
+        ch = rng.choice(["\u00e9", "\u00ff", "\u0101", "\u20ac", "\u4e2d"])
+        where = rng.below(4)
+        if where == 0:
+            s["mn"], s["op"] = "FCC", "\"CAF%s OUVERT\"" % ch
+        elif where == 1:
+            s["comment"] = "caf%s" % ch
+        elif where == 2:
+            s["op"] = (s["op"] or "#") + ch
+        else:
+            s["label"] = "L" + ch
     elif m == "sym_in_list":
         s["mn"] = rng.choice(["FCB", "FDB"])
         s["op"] = rng.choice(["L1,2", "1,L1", "E1,E2", "1,,2", ",1", "1,", "'A,'B", "$GG,1", "-1,-2", "256,1", "1,70000"])
